@@ -74,8 +74,9 @@ def _parse_attrs(doc, i):
                 if k < 0:
                     return attrs, i, "unterminated quoted value"
                 val = doc[i + 1:k]
-                if "<" in val or ">" in val:
-                    return attrs, i, "'<' or '>' inside a quoted attribute value"
+                # a '>' inside a quoted value is plain data of that value (the start tag ends at the first '>' OUTSIDE quotes)
+                if "<" in val:
+                    return attrs, i, "'<' inside a quoted attribute value"
                 i = k + 1
                 if i < n and doc[i] not in WS and doc[i] not in "/>":
                     return attrs, i, "no separator after a quoted value"
@@ -147,8 +148,18 @@ def scan(doc):
                 continue
             if not c.isascii() or _exotic_space(c) or not (c.isalnum() or c in "-_:."):
                 return out, "exotic character right after '<a'"
-            # some other element whose name starts with 'a' (not generated by the check)
-            return out, "element name starting with 'a' other than the anchor"
+            # some other element whose name starts with 'a' (abbr, article, aside ...): no anchor, its start tag is skipped whatever attributes it carries;
+            # <area href> is a link of its own kind (image maps): no verdict
+            k = i + 1
+            while k < n and doc[k].isascii() and (doc[k].isalnum() or doc[k] in "-_:."):
+                k += 1
+            if ascii_lower(doc[i + 1:k]) == "area":
+                return out, "<area> element"
+            _a, j, amb = _parse_attrs(doc, k)
+            if amb:
+                return out, "start tag of another element: " + amb
+            i = j
+            continue
         i += 1
 
 
